@@ -1933,7 +1933,7 @@ def sym_str_method(eng, name, s, args, kw):
         return SV(TInt, z3.IndexOf(e, to_z3(args[0], TStr), 0))
     if name in ('strip', 'lstrip', 'rstrip', 'lower', 'upper', 'join', 'replace', 'rjust', 'ljust', 'title',
                 'capitalize'):
-        return SV(TStr, eng.uf('str_' + name, [TStr] * (1 + len(args)), TStr)(e, *[to_z3(a, TStr) for a in args]))
+        return SV(TStr, eng.uf('str_' + name + ('' if not args else str(len(args))), [TStr] * (1 + len(args)), TStr)(e, *[to_z3(a, TStr) for a in args]))
     raise EngineError('string method %s on symbolic string' % name)
 
 
